@@ -17,7 +17,9 @@ an entry survives iff neither the root's own name nor any component below the ro
 with '.'. So the candidates in walk order are a `filterMap` of `ord`; no recursion is needed.
 Theorems that need the walk to be complete say so (`WalkOf`).
 
-Outside the model: symlinks (the `FS` has none), unreadable directories (`entry.unwrap_or_else`
+Symbolic links inside the tree are pruned by `filter_entry` (`is_symbolic_link`) and never
+followed (`follow_links` is off): a candidate is a REGULAR file reached through real directories,
+which is what `FS.kind` (it does not look at links) says. Outside the model: unreadable directories (`entry.unwrap_or_else`
 panics), directory entries and keys that are not valid UTF-8 (`to_str().unwrap()`; `is_hidden`
 answers "not hidden" for them). Core Lean only.
 -/
@@ -95,19 +97,28 @@ def candOk (fs : FS) (cfg : Cfg) (keys : List Bytes) (S rel : List Bytes) : Bool
     decide (fs.kind (S ++ rel) = some Kind.file) && (coveredNames keys).contains name &&
     !setMatch cfg.ignore (join rel)
 
+/-- `filter_entry` rejects the depth-0 entry when its name is hidden or it is a symbolic link. A
+rejected real directory is not descended (`skip_current_dir`); a rejected LINK to a directory is:
+walkdir always follows a root link, and `is_dir()` of the entry itself is false. So nothing at
+all is walked exactly when the root's name is hidden and the root is not a link. -/
+def rootPruned (fs : FS) (src : Bytes) : Bool := hidden (rootName src) && !fs.isLink src
+
+/-- a root that is a regular file (not a link to one: that entry is rejected) is the only entry -/
+def rootFileCand (fs : FS) (src : Bytes) (keys : List Bytes) : Bool :=
+  !fs.isLink src && isPartialExt src && (coveredNames keys).contains (rootName src)
+
 /-- the entries that are pushed to `file_to_paths`, as (file name, source-relative path), in walk
-order. A hidden root yields nothing at all; a root that is a regular file is the only entry and
+order. A pruned root yields nothing at all; a root that is a regular file is the only entry and
 its relative path is empty. -/
 def walkCands (fs : FS) (ord : List (List Bytes)) (cfg : Cfg) (src : Bytes) (keys : List Bytes) :
     List (Bytes × Bytes) :=
   match fs.resolve src with
   | none => []
   | some (S, kind) =>
-    if hidden (rootName src) then []
+    if rootPruned fs src then []
     else match kind with
       | .file =>
-        if isPartialExt src && (coveredNames keys).contains (rootName src) &&
-            !setMatch cfg.ignore [] then [(rootName src, [])] else []
+        if rootFileCand fs src keys && !setMatch cfg.ignore [] then [(rootName src, [])] else []
       | .dir =>
         ord.filterMap fun p =>
           match stripComps S p with
